@@ -353,7 +353,10 @@ partial def pInterp {S : Type} (ops : AccOps S) (toks : List String) (st : PRun 
       match st.stack with
       | r :: l :: es =>
         pInterp ops rest { st with stack :=
-          ⟨ops.merge l.st r.st, l.data ++ r.data, l.steps + r.steps + 2, Nat.max l.rdepth (r.rdepth + 1)⟩ :: es }
+          -- the delivered observations are kept for the batch oracle; histories that stand for more than 2^22
+          -- observations (repeated `s + s`) drop them (only the serde round trip uses such histories)
+          let d := if l.data.length + r.data.length > 4194304 then ["!"] else l.data ++ r.data
+          ⟨ops.merge l.st r.st, d, l.steps + r.steps + 2, Nat.max l.rdepth (r.rdepth + 1)⟩ :: es }
       | _ => none
   | "q" :: rest =>
       match st.stack with
